@@ -175,6 +175,20 @@ Definition chk_rle_encode (i : N * list N) (o : outcome (list (list N) * list ch
   | _, _ => false
   end.
 
+(* the same comparison for large cases in a compact notation: the input is given as a list of
+   (value, repeat count) and the implementation's value buffer as its typed words *)
+Definition expand_spec (spec : list (N * N)) : list N :=
+  flat_map (fun r => repeat (fst r) (N.to_nat (snd r))) spec.
+Definition chk_rle_encode_w (i : N * list (N * N)) (o : outcome (list N * list N * list chunk)) : bool :=
+  match rle_encode (fst i) (expand_spec (snd i)), o with
+  | Some (Ok (b, c)), Ok (w, l, c') =>
+      bufs_eqb b (match w, l with [], [] => [] | _, _ => [bytes_of_words (N.to_nat (fst i)) w; l] end)
+      && chunks_eqb c c'
+  | Some Err, Err => true
+  | Some Panic, Panic => true
+  | _, _ => false
+  end.
+
 (* input (ts, chunk buffers, num_values); output bytes of the real decompressor *)
 Definition chk_rle_decode (i : N * list (list N) * N) (o : outcome (list N)) : bool :=
   let '(ts, bufs, n) := i in
